@@ -65,7 +65,7 @@ CLAIMED = {
              text="Digest sizes {1,8,160,224,256,384,511,512}, key lengths {0,1,63,64}, L in {0,1,2,3,64}, round counts {1..5, default}, message sizes 0, 1, the 384/512-byte boundaries, 2..4, 5..16, 17+ (33, 65 in thorough) leaf blocks, every bitlen mod 8, over-long bit length; rounds set on the object so that big trees stay affordable for TLC.  Content is seeded.",
              ref="DESIGN.md section 7 C17"),
 
- 'C12': dict(tech="TLC: UBI tweak schedule model-checked for every bit length over 0..4 blocks and start positions at limb boundaries; TLC trace validation recomputing every Skein / UBI output from the TLA+ transcription of Skein 1.3 (validated on the official vectors incl. MAC and tree)",
+ 'C12': dict(tech="TLC: UBI tweak schedule model-checked for every bit length over 0..4 blocks and start positions at limb boundaries, the tree plan with a symbolic UBI for all Yl,Yf in 1..3 / Ym in 2..4 (unique node ids, height limit, single root); TLC trace validation recomputing every Skein / UBI output from the TLA+ transcription of Skein 1.3 (validated on the official vectors incl. MAC and tree)",
              text="Nb in {256,512,1024}, No in {8,16,Nb-8,Nb,Nb+8,2Nb,4Nb}, message lengths at the block boundaries over 0..4 blocks with every L mod 8 (explicit and omitted bit length, data longer than needed), keys absent/empty/short/longer than a block, prs/PK/kdf/nonce alone and combined, tree shapes Yl,Yf in 1..3 / Ym in 2..4, bare UBI with start positions near 2^64.  Content is seeded.",
              ref="DESIGN.md section 7 C12"),
 
